@@ -49,13 +49,26 @@ class HalfRecProto(RecProto):
         self.events.append(("write-lost",))
 
 
+class BufferRecProto(RecProto):
+    """a protocol that is also a container (its receive buffer): empty, hence false, most of the time"""
+
+    def __len__(self):
+        return 0
+
+
 class RecFactory(protocol.Factory):
+    falsy = False          # the factory doubles as the container of its live connections: empty (false) at first
+    falsy_protocols = False
+
     def __init__(self, owner, name, half=False):
         self.owner, self.name, self.half = owner, name, half
         self.built = []        # (addr.subprotocol, proto)
 
+    def __len__(self):
+        return 0 if self.falsy else 1
+
     def buildProtocol(self, addr):
-        cls = HalfRecProto if self.half else RecProto
+        cls = HalfRecProto if self.half else (BufferRecProto if self.falsy_protocols else RecProto)
         p = cls(self.owner, "%s#%d" % (self.name, len(self.built)), addr)
         if getattr(self, "react", None):
             p.react = self.react
@@ -153,8 +166,10 @@ class ScriptDriver:
     """Random application script over subchannels: listen / open / write / close on both sides."""
 
     def __init__(self, dp, rng, names=("p0", "p1"), max_opens=3, max_writes=30, sizes=(1, 10, 200, 5000, 70000, (65490, 65545), (131010, 131070)),
-                 late_listen=0.3, half=0.0, close_prob=0.5, listen_names=None, pauses=0, reactive=0):
+                 late_listen=0.3, half=0.0, close_prob=0.5, listen_names=None, pauses=0, reactive=0, falsy=0.0):
         self.dp, self.rng = dp, rng
+        self.falsy = falsy             # share of factories (and their protocols) that are false-y objects
+        self.falsy_factories = 0
         self.reactions = reactive      # budget of writes/closes made from inside connectionMade/dataReceived/connectionLost
         self.reactions_done = 0
         self.late_write_results = []   # (proto name, exception type or None) for writes attempted from connectionLost
@@ -182,6 +197,12 @@ class ScriptDriver:
         self.write_errors = []
         self.stop = False
 
+    def _maybe_falsy(self, f):
+        if self.falsy and self.rng.random() < self.falsy:
+            f.falsy = True
+            f.falsy_protocols = True
+            self.falsy_factories += 1
+
     def _react(self, p, kind):
         if self.reactions <= 0 or self.stop or self.rng.random() < 0.5:
             return
@@ -205,6 +226,7 @@ class ScriptDriver:
         f = RecFactory(self.dp, "%s.accept[%s]" % (side, name), half=self.rng.random() < self.half)
         if self.reactions:
             f.react = self._react
+        self._maybe_falsy(f)
         f.sent_by = {}
         self.factories[side][name] = f
         self.dp.dilate(side).listener_for(name).listen(f).addCallback(lambda port: self.listening[side].add(name))
@@ -213,6 +235,7 @@ class ScriptDriver:
         f = RecFactory(self.dp, "%s.open[%s]" % (side, name), half=self.rng.random() < self.half)
         if self.reactions:
             f.react = self._react
+        self._maybe_falsy(f)
         rec = {"side": side, "name": name, "proto": None, "failure": None, "factory": f, "step": self.world.step}
         self.opens.append(rec)
         d = self.dp.dilate(side).connector_for(name).connect(f)
@@ -327,7 +350,7 @@ class ScriptDriver:
                 mine = [r for r in self.opens if r["side"] == side and r["name"] == name and r["proto"] is not None]
                 mine.sort(key=lambda r: r.get("made_step", 0))
                 f = self.factories[other].get(name)
-                built = [p for (_, p) in f.built] if f else []
+                built = [p for (_, p) in f.built] if f is not None else []
                 for i, r in enumerate(mine):
                     out.append((r, built[i] if i < len(built) else None))
         return out
